@@ -25,7 +25,7 @@ from ..runner import Collector, Violation
 PROPERTY_ID = "C15"
 LEVEL = "exploration"
 RULE = (
-    "case = (text-bearing position, payload). The position x payload matrix (25 positions x 40 payloads) is enumerated completely; "
+    "case = (text-bearing position, payload). The position x payload matrix (32 positions x 50 payloads mid-text, plus 13 edge-sensitive payloads x 5 other placements: alone / at the start / at the end / on a line of its own / inside a long wrapped text; thorough: all payloads x all placements) is enumerated completely; "
     "Hypothesis text() payloads are added on top. Non-trivial = the payload reaches generated text (it, or an escaped spelling of "
     "it, occurs in some emitted file). Matrix cases are distinct by construction."
 )
@@ -41,7 +41,19 @@ PAYLOADS = [
     '"', "'", '"""', "'''", "\\", "\\\\", "\n", "\r", "\r\n", "\\n", "\\N{BULLET}", "\\x41", "\\u0041", "{}", "{x}", "{0}", "%s", "#", ":", "\t",
     "\x0b", "\x1f", " ", "‮", "é", "\U0001F600", "é漢", 'x" + __import__("os").getcwd() + "', "\"\"\"\nimport os\n\"\"\"", "line1\\\nline2",
     "trailing\\", "'; pass #", "*/", "${x}", "a\x00b", "\u2028", "\x85", "\x0c", "\x1c", "\U00012c44",
+    "async def injected(self) -> None:", "@overload", "def f():", "class X:", "import os", "return 1", "Args:", "    x = 1", ">>> 1/0", "# type: ignore",
 ]
+# payloads whose effect depends on what is next to them (closing quotes, start of a line, end of the text): also placed
+# alone / at the start / at the end / on a line of their own
+EDGE_PAYLOADS = ['"', "'", "\\", '"""', "\r", "#", "{x}", "async def injected(self) -> None:", "@overload", "def f():", "class X:", "    x = 1", "\x00"]
+PLACES = {
+    "mid": lambda p: "ab" + p + "cd",
+    "whole": lambda p: p,
+    "end": lambda p: "ab" + p,
+    "start": lambda p: p + "cd",
+    "own_line": lambda p: "ab\n" + p + "\ncd",
+    "long_wrapped": lambda p: ("word " * 30) + p + (" word" * 30),
+}
 
 
 def template() -> dict:
@@ -69,6 +81,11 @@ def template() -> dict:
                     "responses": {"200": {"description": "Updated.", "content": {"application/json": {"schema": {"$ref": R + "Shape"}}}}},
                 },
             },
+            "/things": {"post": {
+                "operationId": "createThing", "tags": ["things"], "summary": "Create", "description": "Create a thing.",
+                "requestBody": {"description": "The body.", "required": True, "content": {"application/json": {"schema": {"$ref": R + "Thing"}},
+                                                                 "multipart/form-data": {"schema": {"type": "object", "properties": {"file": {"type": "string", "format": "binary"}}}}}},
+                "responses": {"201": {"description": "Created.", "content": {"application/json": {"schema": {"$ref": R + "Marker"}}}}}}},
             "/events": {"get": {"operationId": "streamEvents", "tags": ["events"], "summary": "Stream", "responses": {"200": {"description": "Events.", "content": {"text/event-stream": {"schema": {"$ref": R + "Thing"}}}}}}},
         },
         "components": {"schemas": {
@@ -81,6 +98,8 @@ def template() -> dict:
                 "size": {"$ref": R + "Size"}},
                 "required": ["name"]},
             "Size": {"type": "string", "enum": ["small", "large"], "description": "Sizes."},
+            "Marker": {"type": "object", "description": "A marker."},
+            "Count": {"type": "integer", "description": "A count."},
             "Alias": {"type": "array", "items": {"$ref": R + "Thing"}, "description": "An alias."},
             "Circle": {"type": "object", "properties": {"kind": {"type": "string", "enum": ["circle"]}, "r": {"type": "number"}}, "required": ["kind"]},
             "Square": {"type": "object", "properties": {"kind": {"type": "string", "enum": ["square"]}, "a": {"type": "number"}}, "required": ["kind"]},
@@ -156,15 +175,27 @@ POSITIONS = {
     "operationId": (lambda s, t: _set(s, ["paths", "/things/{thingId}", "get", "operationId"], t), None),
     "tag": (lambda s, t: (_set(s, ["paths", "/things/{thingId}", "get", "tags"], [t]), _set(s, ["paths", "/things/{thingId}", "put", "tags"], [t])), None),
     "response.description": (lambda s, t: _set(s, ["paths", "/things/{thingId}", "get", "responses", "200", "description"], t), None),
+    "info.version": (lambda s, t: _set(s, ["info", "version"], t), None),
+    "empty_object.description": (lambda s, t: _set(s, ["components", "schemas", "Marker", "description"], t), None),
+    "primitive_alias.description": (lambda s, t: _set(s, ["components", "schemas", "Count", "description"], t), None),
+    "multi_content.summary": (lambda s, t: _set(s, ["paths", "/things", "post", "summary"], t), None),
+    "multi_content.description": (lambda s, t: _set(s, ["paths", "/things", "post", "description"], t), None),
+    "request_body.description": (lambda s, t: _set(s, ["paths", "/things", "post", "requestBody", "description"], t), None),
+    "path_param.description": (lambda s, t: _param(s, 0).__setitem__("description", t), None),
     "error_response.description": (lambda s, t: _set(s, ["paths", "/things/{thingId}", "get", "responses", "404", "description"], t), None),
 }
 
 
 def valid_case(case: dict) -> bool:
-    return case.get("position") in POSITIONS and isinstance(case.get("payload"), str) and len(case["payload"]) >= 1
+    return case.get("position") in POSITIONS and isinstance(case.get("payload"), str) and len(case["payload"]) >= 1 and case.get("place", "mid") in PLACES
 
 
-def skeleton(src: str) -> str:
+# positions whose text becomes identifiers: declaration order (fields and parameters are sorted by derived name) and file names
+# follow the text, so the comparison is order-insensitive there: a histogram of AST node types per file
+NAME_POSITIONS = {"property.name", "query_param.name", "header_param.name", "cookie_param.name", "operationId", "tag"}
+
+
+def skeleton(src: str, loose: bool = False) -> str:
     tree = ast.parse(src)
 
     class M(ast.NodeTransformer):
@@ -228,18 +259,23 @@ def skeleton(src: str) -> str:
             return n
 
     t = M().visit(tree)
+    if loose:
+        import collections
+
+        hist = collections.Counter(type(n).__name__ + (":" + str(n.value) if isinstance(n, ast.Constant) else "") for n in ast.walk(t))
+        return hashlib.sha1(repr(sorted(hist.items())).encode()).hexdigest()
     # import lines vary with names (sorted alphabetically): compare them as a sorted multiset
     body_imports = sorted(ast.dump(s) for s in t.body if isinstance(s, (ast.Import, ast.ImportFrom)))
     rest = [ast.dump(s) for s in t.body if not isinstance(s, (ast.Import, ast.ImportFrom))]
     return hashlib.sha1(("\n".join(body_imports) + "\n--\n" + "\n".join(rest)).encode()).hexdigest()
 
 
-def _skeletons(res: genrun.GenResult) -> tuple[list[str], list[tuple[str, str]]]:
+def _skeletons(res: genrun.GenResult, loose: bool = False) -> tuple[list[str], list[tuple[str, str]]]:
     sk, bad = [], []
     for rel in genrun.list_py_files(res):
         src = open(os.path.join(res.root, rel), encoding="utf-8", errors="surrogateescape").read()
         try:
-            sk.append(skeleton(src))
+            sk.append(skeleton(src, loose))
         except SyntaxError as e:
             bad.append((rel, f"{e.msg} (line {e.lineno}): {(e.text or '').strip()[:120]}"))
         except ValueError as e:  # e.g. source contains null bytes
@@ -260,7 +296,7 @@ def baseline(position: str) -> list[str] | None:
         POSITIONS[position][0](spec, "abxcd")
         res = _gen(spec)
         try:
-            _BASE[position] = _skeletons(res)[0] if res.ok else None
+            _BASE[position] = _skeletons(res, position in NAME_POSITIONS)[0] if res.ok else None
         finally:
             genrun.cleanup(res)
     return _BASE[position]
@@ -272,7 +308,8 @@ def evaluate(case: dict) -> list[Violation]:
 
 def run_case(case: dict) -> tuple[list[Violation], bool, str]:
     position, payload = case["position"], case["payload"]
-    text = "ab" + payload + "cd"
+    place = case.get("place", "mid")
+    text = PLACES[place](payload)
     spec = template()
     apply, semantic = POSITIONS[position]
     apply(spec, text)
@@ -281,11 +318,11 @@ def run_case(case: dict) -> tuple[list[Violation], bool, str]:
     try:
         if not res.ok:
             return [], False, "rejected"
-        sk, bad = _skeletons(res)
+        sk, bad = _skeletons(res, position in NAME_POSITIONS)
         from .c01 import role_of
 
         for rel, err in bad[:3]:
-            viols.append(Violation(("file_does_not_parse", position, role_of(rel)), f"payload={payload!r}: {rel}: {err}"))
+            viols.append(Violation(("file_does_not_parse", position, role_of(rel)), f"payload={payload!r} place={place}: {rel}: {err}"))
         reached = False
         for rel in genrun.list_py_files(res):
             src = open(os.path.join(res.root, rel), encoding="utf-8", errors="replace").read()
@@ -294,7 +331,7 @@ def run_case(case: dict) -> tuple[list[Violation], bool, str]:
                 break
         base = baseline(position)
         if not bad and base is not None and sk != base:
-            viols.append(Violation(("structure_differs_from_benign", position), f"payload={payload!r}: {len(sk)} files vs {len(base)}; differing skeletons: {len(set(sk) ^ set(base))}"))
+            viols.append(Violation(("structure_differs_from_benign", position), f"payload={payload!r} place={place}: {len(sk)} files vs {len(base)}; differing skeletons: {len(set(sk) ^ set(base))}"))
         if not bad and semantic:
             viols.extend(_semantic(res, spec, position, semantic, text))
         return viols, reached, "ok"
@@ -359,10 +396,14 @@ SHRINK = False
 
 
 def shards(tier: str, seed: int) -> list[dict]:
-    out = [{"mode": "matrix", "position": p} for p in POSITIONS]
-    n_h, per = (8, 25) if tier == "quick" else (32, 200)
+    out = [{"mode": "matrix", "position": p, "tier": tier} for p in POSITIONS]
+    n_h, per = (16, 25) if tier == "quick" else (48, 250)
     out += [{"mode": "hyp", "seed": seed * 1000 + i, "n": per} for i in range(n_h)]
     return out
+
+
+TOKENS = ['"', "'", "\\", '"""', "\n", "\r", "\t", " ", "#", "{", "}", "%", ":", "(", ")", "@overload", "async def f(self):", "def ", "x", "é", "\u2028", "\x85", "\x00", "\x0c",
+          "\\n", "\\x", "\\N{", "\\u", "import os", "=", ",", "[", "]", "\U0001F600", "..."]
 
 
 def run_shard(shard: dict) -> dict:
@@ -371,18 +412,22 @@ def run_shard(shard: dict) -> dict:
     col = Collector()
     if shard["mode"] == "matrix":
         pos = shard["position"]
-        for i, payload in enumerate(PAYLOADS):
-            case = {"position": pos, "payload": payload}
+        todo = [{"position": pos, "payload": p, "place": "mid"} for p in PAYLOADS]
+        edge = EDGE_PAYLOADS if shard.get("tier") == "quick" else PAYLOADS
+        todo += [{"position": pos, "payload": p, "place": pl} for pl in PLACES if pl != "mid" for p in edge]
+        for i, case in enumerate(todo):
             viols, reached, outcome = run_case(case)
-            col.record(case, viols, reached, ["matrix", "outcome_" + outcome, "reached" if reached else "not_reached"])
+            col.record(case, viols, reached, ["matrix", "place_" + case["place"], "outcome_" + outcome, "reached" if reached else "not_reached"])
             if i % 10 == 0:
                 runner.truncate_generator_logs()
         col.extra["matrix_complete"] = True
         return col.to_dict()
     from hypothesis import strategies as st
 
-    strat = st.fixed_dictionaries({"position": st.sampled_from(sorted(POSITIONS)), "payload": st.text(st.characters(blacklist_categories=("Cs",)), min_size=1, max_size=12)})
+    payload = st.one_of(st.text(st.characters(blacklist_categories=("Cs",)), min_size=1, max_size=12),
+                        st.lists(st.sampled_from(TOKENS), min_size=1, max_size=5).map("".join))
+    strat = st.fixed_dictionaries({"position": st.sampled_from(sorted(POSITIONS)), "payload": payload, "place": st.sampled_from(sorted(PLACES))})
     for case in hyp.draw_cases(strat, shard["n"], shard["seed"]):
         viols, reached, outcome = run_case(case)
-        col.record(case, viols, reached, ["random_text", "outcome_" + outcome])
+        col.record(case, viols, reached, ["random_text", "place_" + case["place"], "outcome_" + outcome])
     return col.to_dict()
